@@ -35,7 +35,7 @@ def main():
           for p in props if p["id"] not in CHECKS]
     m = dict(
         version=1,
-        setup_cmd="cd lean && lake build Qv driver Qv.Proofs.GenEq " + " ".join("Qv.Props." + c for c in sorted(CHECKS)),
+        setup_cmd="cd lean && lake build Qv driver Qv.Proofs.GenEq Qv.Proofs.GenEqC " + " ".join("Qv.Props." + c for c in sorted(CHECKS)),
         hooks=dict(guard="JTIOSUE_QUBOVERT_VERIF", enable="export JTIOSUE_QUBOVERT_VERIF=1 (set by ./check); hooks are pure-Python, no rebuild needed",
                    baseline_off_cmd="cd /repo && env -u JTIOSUE_QUBOVERT_VERIF /venv/bin/python -m pytest -ra -q -p no:cacheprovider --timeout=900 --continue-on-collection-errors",
                    source_commits=["9737c30"], add_only=True),
